@@ -405,6 +405,8 @@ func VfC03_DeepMemory() {
 	b.NewExtractElement(gz, one)
 	gu := b.NewGetElementPtr(arrT, f.Params[6], constant.NewUndef(i64v), constant.NewInt(types.I64, 1))
 	b.NewExtractElement(gu, one)
+	g0 := b.NewGetElementPtr(arrT, f.Params[6]) // no indices (valid LLVM)
+	b.NewLoad(arrT, g0)
 	e := b.NewExtractElement(v, one)
 	iv := b.NewInsertElement(v, e, one)
 	b.NewShuffleVector(v, iv, constant.NewZeroInitializer(types.NewVector(4, types.I32)))
